@@ -74,6 +74,9 @@ class PerishableInventory(Entity):
     ):
         super().__init__(name)
         self.shelf_life_s = shelf_life_s
+        if spoilage_check_interval_s <= 0:
+            # a periodic timer with a zero period re-arms itself at the current instant forever
+            raise ValueError(f"spoilage_check_interval_s must be > 0, got {spoilage_check_interval_s}")
         self.spoilage_check_interval_s = spoilage_check_interval_s
         self.reorder_point = reorder_point
         self.order_quantity = order_quantity
